@@ -122,6 +122,16 @@ class RunLab(object):
 
         for fn, pat in ((step_sync, "{sid:Sid} {rest}"), (step_async, "{sid:ASid} {rest}"), (step_bad, "{sid:Bad} {rest}")):
             reg.steps["step"].append(self.ParseMatcher(fn, pat, "step", custom_types=self.types))
+        cuke_texts = [t for t in state.outcomes if t[:1] == "c"]
+        if cuke_texts:
+            from behave.cucumber_expression import StepMatcher4CucumberExpressions
+
+            def make(text):
+                def step_cuke(context):
+                    lab.on_step(state, context, text)
+                return step_cuke
+            for t in cuke_texts:
+                reg.steps["step"].append(StepMatcher4CucumberExpressions(make(t), t, "step"))
         return reg
 
     def on_step(self, state, context, text):
